@@ -40,12 +40,16 @@ type tcase struct {
 	Requester string
 	TTL       uint32
 	LocalIn   bool
+	Scheme    string // thorough: request signature scheme ("" = ECDSA_SHA512)
 }
 
 func (c tcase) String() string {
 	s := c.Method
 	if c.Shape != "" {
 		s += "[" + c.Shape + "]"
+	}
+	if c.Scheme != "" {
+		s += " scheme=" + c.Scheme
 	}
 	return fmt.Sprintf("%s by=%s ttl=%d localInContainer=%v", s, c.Requester, c.TTL, c.LocalIn)
 }
@@ -97,11 +101,22 @@ func run(c tcase, maintenance bool) (outcome, error) {
 	if c.Method != "Get" {
 		shape = ""
 	}
-	reqs, err := w.BuildRequests(c.Method, sw.Params{Signer: c.Requester, TTL: c.TTL, Shape: shape})
+	p := sw.Params{Signer: c.Requester, TTL: c.TTL, Shape: shape}
+	switch c.Requester {
+	case "session": // thorough: request carried by a valid V1 session token of the owner
+		p.Signer = sw.SessionKey
+		if v := sw.VerbOf(c.Method); v != 0 {
+			p.SessionV1 = sw.SessionV1(w.Chain.CnrID, v, sw.Epoch+5)
+		}
+	case "bearer": // thorough: stranger with a valid bearer token of the owner
+		p.Signer = sw.Stranger
+		p.Bearer = sw.Bearer(w.Chain.CnrID, sw.Owner, sw.Stranger, sw.Epoch+5)
+	}
+	reqs, err := w.BuildRequests(c.Method, p)
 	if err != nil {
 		return outcome{}, err
 	}
-	if err := sw.SignAll(reqs, c.Requester); err != nil {
+	if err := sw.SignAllScheme(reqs, p.Signer, c.Scheme); err != nil {
 		return outcome{}, err
 	}
 	before, err := sw.SnapTree(w.Dir)
@@ -291,10 +306,18 @@ func main() {
 			shapes = []string{"", "maintenance-starts-before-chunk"}
 		}
 		for _, sh := range shapes {
-			for _, who := range []string{sw.Owner, sw.Stranger} {
-				for _, ttl := range []uint32{1, 2} {
-					for _, in := range []bool{true, false} {
-						cases = append(cases, tcase{Method: m, Shape: sh, Requester: who, TTL: ttl, LocalIn: in})
+			who := []string{sw.Owner, sw.Stranger}
+			schemes := []string{""}
+			if r.Thorough() {
+				who = append(who, "session", "bearer")
+				schemes = append(schemes, "rfc6979", "walletconnect")
+			}
+			for _, who := range who {
+				for _, scheme := range schemes {
+					for _, ttl := range []uint32{1, 2} {
+						for _, in := range []bool{true, false} {
+							cases = append(cases, tcase{Method: m, Shape: sh, Requester: who, TTL: ttl, LocalIn: in, Scheme: scheme})
+						}
 					}
 				}
 			}
